@@ -175,6 +175,7 @@ def run_property(pid, tier, seed, repo='/repo', only_deductive=False, timeout=No
     for cf in P.get('case_functions', []):
         cmod = importlib.import_module(cf['module'])
         ctx.flat_mode = bool(getattr(cmod, 'FLAT_MODE', False))
+        ctx.opaque_alloc = bool(getattr(cmod, 'OPAQUE_ALLOC', False))
         ctx.trace_mode = bool(getattr(cmod, 'TRACE_MODE', P.get('trace_mode')))
         if ctx.flat_mode and not getattr(ctx, '_flat_lemmas', False):
             # the addressing facts vf/flat.py hands to the solver are proved from the row-major definition on every run
@@ -216,6 +217,7 @@ def run_property(pid, tier, seed, repo='/repo', only_deductive=False, timeout=No
             if rep['canary_refuted'] is not True and not (rep.get('returns') == 0 and rep.get('raises', 0) > 0):
                 engine_errors.append('canary at the exit of %s not refuted' % rep['function'])
     ctx.flat_mode = False
+    ctx.opaque_alloc = False
     ctx.trace_mode = bool(P.get('trace_mode'))
     # the functions listed for the property are verified against the property's own contracts; contracts brought by case
     # modules stay available (quantified facts are evaluated lazily at discharge time) unless they clash
